@@ -66,6 +66,20 @@ def run(ctx):
     n_opaque = sum(1 for _, r in rows if r['kind'] == 'Opaque')
     ctx.coverage['table'] = {'classes_with_own_to_numpy': len(table['classes']), 'rows': len(rows), 'opaque_rows_dynamic_only': n_opaque,
                              'inherits': table['inherits'], 'classes_not_analysed_statically': table['unanalysed']}
+    kinds = {'same_named_direct': 0, 'same_named_through_details': 0, 'same_named_time_independent': 0, 'same_named_opaque': 0,
+             'not_named_like_a_field': 0}
+    for _, r in rows:
+        if r['key'] not in r['fields']:
+            kinds['not_named_like_a_field'] += 1
+        elif r['kind'] == 'Opaque':
+            kinds['same_named_opaque'] += 1
+        elif r['kind'] == 'First':
+            kinds['same_named_time_independent'] += 1
+        elif r['prefix']:
+            kinds['same_named_through_details'] += 1
+        else:
+            kinds['same_named_direct'] += 1
+    ctx.coverage['table']['row_kinds'] = kinds
     for k, why in table['unanalysed'].items():
         ctx.notes.append('to_numpy of %s not understood by the translator (dynamic comparison only): %s' % (k, why))
     if not ctx.coq():
